@@ -446,4 +446,19 @@ theorem buildLevel_ok {specs : Nat → Option Val} {st st' : St} {params : List 
             (fun u hu => ⟨(c2 u hu).1, (c2 u hu).2.1⟩) (fun u hu => ⟨(c3 u hu).1, (c3 u hu).2.1⟩)
             c4 (by simp) (by simp)
 
+
+theorem padRates_length (rates : List RateSpec) (n : Nat) : n ≤ (padRates rates n).length := by
+  simp [padRates]; omega
+
+theorem mkCNs_names (specs : Nat → Option Val) (ci n0 : Nat) (ps : List Param) (rs : List RateSpec)
+    (h : ps.length ≤ rs.length) : (mkCNs specs ci n0 ps rs).map (·.name) = ps.map (·.name) := by
+  induction ps generalizing n0 rs with
+  | nil => simp [mkCNs]
+  | cons p ps ih =>
+    cases rs with
+    | nil => simp at h
+    | cons r rs =>
+      simp only [mkCNs, List.map_cons]
+      rw [ih (n0 + 1) rs (by simpa using h)]
+
 end Sc3Verif.C04
